@@ -10,7 +10,11 @@ bookkeeping can be compared with the Lean model (`tpl.run`).
 program = {"cfg": {"nv","transp","maxq"}, "events": [event...]}
 event   = new | gate h g | rot h axis n d | gate2 h h2 | meas h mode inplace | array len
           (n = int or {"t": name}; mode = "array" | "reg")
-        | flush | compile vals | commit
+        | flush | compile vals [more] [partial] [copy] | commit
+A `compile` may be RE-USED: `more` = further value dicts; the compiled template is then
+instantiated once per dict on `copy.copy`/`copy.deepcopy` of it (`copy`) and each instance takes
+one `commit` (flow D: the block is built again with those values and flushed).  `partial` = an
+incomplete dict tried first on instance `partial_at` (KeyError expected, then the full dict).
 `compile` pre-compiles the pending operations (flow D: flushes them); `commit` instantiates the
 OLDEST compiled-but-uncommitted subroutine with its values and commits it (flow D: nothing).
 Operations may be built between a compile and its commit and several compiled subroutines may
@@ -19,6 +23,9 @@ controller would legitimately see the subroutines in a different order).
 The connection is closed at the end (closing flush).  `segs_to_events` converts the older
 segment form [{"body": [...], "pre": vals | None}] (compile immediately followed by commit).
 """
+import copy as _copy
+
+from harness import codec as _codec
 from harness.pipeline import PipelineConnection, TraceExecutor, reset_globals
 
 from netqasm.lang.encoding import RegisterName  # noqa: E402
@@ -115,6 +122,19 @@ def handle_state(handles):
     return out
 
 
+def tinstr_to_json(i):
+    """instruction (possibly with Template operands) in the driver's JSON"""
+    ops = []
+    for o in i.operands:
+        ops.append({"t": o.name} if isinstance(o, Template) else _codec.operand_to_json(o))
+    return {"c": _codec.T.cls_name(type(i)), "o": ops}
+
+
+def inst_request(trec, inplace=False):
+    return {"op": "tpl.inst", "t": trec["t"], "sigmas": [[[k, v] for k, v in c] for c in trec["calls"]],
+            "inplace": inplace}
+
+
 def run_flow(prog, flow, outcomes):
     """Returns {"events": [per event record], "protos": [...], "close": {...}, "futures": [...],
     "msgs": [hex...], "error": str|None}.  Per event: bk (bookkeeping), handles, delta/rewrite
@@ -143,31 +163,41 @@ def run_flow(prog, flow, outcomes):
     handles = []
     futures = []
     outstanding = []
-    rec = {"events": [], "protos": captured, "close": None, "futures": None, "msgs": None, "error": None}
+    block = []  # build events since the last terminator
+    rec = {"events": [], "protos": captured, "close": None, "futures": None, "msgs": None, "error": None,
+           "templates": []}
+
+    def do_build(st, vals):
+        k = st["k"]
+        if k == "new":
+            handles.append(Qubit(conn))
+        elif k == "gate":
+            getattr(handles[st["h"]], GATES1[st["g"] % len(GATES1)])()
+        elif k == "rot":
+            n = st["n"]
+            if isinstance(n, dict):
+                n = Template(n["t"]) if flow == "P" else vals[n["t"]]
+            getattr(handles[st["h"]], "rot_" + st["axis"])(n=n, d=st["d"])
+        elif k == "gate2":
+            handles[st["h"]].cnot(handles[st["h2"]])
+        elif k == "meas":
+            futures.append(handles[st["h"]].measure(inplace=st["inplace"],
+                                                    store_array=(st["mode"] == "array")))
+        elif k == "array":
+            conn.new_array(st["len"])
     try:
         for i, st in enumerate(events):
             k = st["k"]
             before = render_cmds(conn.builder._pending_commands)
             note = None
-            if k == "new":
-                handles.append(Qubit(conn))
-            elif k == "gate":
-                getattr(handles[st["h"]], GATES1[st["g"] % len(GATES1)])()
-            elif k == "rot":
-                n = st["n"]
-                if isinstance(n, dict):
-                    n = Template(n["t"]) if flow == "P" else next_vals(events, i)[n["t"]]
-                getattr(handles[st["h"]], "rot_" + st["axis"])(n=n, d=st["d"])
-            elif k == "gate2":
-                handles[st["h"]].cnot(handles[st["h2"]])
-            elif k == "meas":
-                futures.append(handles[st["h"]].measure(inplace=st["inplace"],
-                                                        store_array=(st["mode"] == "array")))
-            elif k == "array":
-                conn.new_array(st["len"])
+            if k in BUILD_KINDS:
+                block.append(st)
+                do_build(st, next_vals(events, i))
             elif k == "flush":
                 conn.flush()
+                block = []
             elif k == "compile":
+                insts = [st["vals"]] + list(st.get("more", []))
                 if flow == "P":
                     cur_vals[0] = st["vals"]
                     try:
@@ -175,17 +205,47 @@ def run_flow(prog, flow, outcomes):
                     finally:
                         cur_vals[0] = None
                     if sub is not None:
-                        outstanding.append((sub, st["vals"]))
+                        trec = {"t": [tinstr_to_json(x) for x in sub.instructions], "calls": [], "results": [],
+                                "after": None, "sub": sub}
+                        rec["templates"].append(trec)
+                        for j, v in enumerate(insts):
+                            outstanding.append({"sub": sub, "vals": v, "mode": st.get("copy", "self"),
+                                                "partial": st.get("partial") if j == st.get("partial_at", 0) else None,
+                                                "trec": trec})
                 else:
                     conn.flush()
+                    for j, v in enumerate(insts):
+                        outstanding.append({"block": list(block) if j > 0 else None, "vals": v})
+                block = []
             elif k == "commit":
-                if flow == "P":
-                    if outstanding:
-                        sub, vals = outstanding.pop(0)
-                        sub.instantiate(conn.app_id, dict(vals))
-                        conn.commit_subroutine(sub)
-                    else:
-                        note = "nothing to commit"
+                if not outstanding:
+                    note = "nothing to commit"
+                elif flow == "P":
+                    it = outstanding.pop(0)
+                    tmpl, trec = it["sub"], it["trec"]
+                    inst = tmpl if it["mode"] == "self" else (
+                        _copy.copy(tmpl) if it["mode"] == "copy" else _copy.deepcopy(tmpl))
+                    if it["partial"] is not None:
+                        trec["calls"].append(sorted(it["partial"].items()))
+                        try:
+                            inst.instantiate(conn.app_id, dict(it["partial"]))
+                            note = "instantiate with a missing argument did not raise"
+                            trec["results"].append([tinstr_to_json(x) for x in inst.instructions])
+                        except KeyError:
+                            trec["results"].append(None)
+                    trec["calls"].append(sorted(it["vals"].items()))
+                    inst.instantiate(conn.app_id, dict(it["vals"]))
+                    trec["results"].append([tinstr_to_json(x) for x in inst.instructions])
+                    if it["mode"] != "self":
+                        trec["after"] = [tinstr_to_json(x) for x in tmpl.instructions]
+                    conn.commit_subroutine(inst)
+                else:
+                    it = outstanding.pop(0)
+                    if it["block"] is not None:
+                        # the same operations written again with this round's values, flushed
+                        for b in it["block"]:
+                            do_build(b, it["vals"])
+                        conn.flush()
             else:
                 raise KeyError(k)
             r = {"bk": bookkeeping(conn), "handles": handle_state(handles), "nmsgs": len(conn.messages) - n_init,
@@ -215,10 +275,21 @@ def run_flow(prog, flow, outcomes):
 
 
 def model_request(prog, recP):
-    """`tpl.hist` request built from the program and the pending-command deltas of flow P"""
+    """`tpl.hist` request built from the program and the pending-command deltas of flow P.
+    Returns (request, index map: program event -> model step or None).  The bookkeeping model has
+    one queue entry per compile; the further commits of a re-used template are no model events."""
     evs = []
+    idx = []
+    extra = []  # per outstanding template: number of further instances
     for st, r in zip(prog["events"], recP["events"]):
         k = st["k"]
+        if k == "commit" and extra:
+            if extra[0] > 0:
+                extra[0] -= 1
+                idx.append(None)
+                continue
+            extra.pop(0)
+        idx.append(len(evs))
         if k == "array":
             evs.append({"k": "build", "op": {"k": "array", "len": st["len"]}})
         elif k == "meas":
@@ -227,10 +298,11 @@ def model_request(prog, recP):
             evs.append({"k": "build", "op": {"k": "cmds", "cs": r["delta"]}})
         elif k == "compile":
             evs.append({"k": "compile", "pre": [[a, b] for a, b in sorted(st["vals"].items())]})
+            extra.append(len(st.get("more", [])))
         else:
             evs.append({"k": k})
     evs.append({"k": "flush"})  # the closing flush
-    return {"op": "tpl.hist", "events": evs}
+    return {"op": "tpl.hist", "events": evs}, idx
 
 
 def random_program(rng, thorough=False):
@@ -244,6 +316,44 @@ def random_program(rng, thorough=False):
     outstanding = 0
     interleave = rng.random() < 0.6  # build operations between compile and commit
     for _ in range(rng.randint(1, 5)):
+        lv0 = [i for i, a in enumerate(alive) if a]
+        if outstanding == 0 and lv0 and rng.random() < 0.3:
+            # a re-usable block (only gates on live qubits), compiled once, instantiated per round
+            names = []
+            for _ in range(rng.randint(1, 4)):
+                k = rng.choice(["rot", "rot", "rot", "gate"] + (["gate2"] if len(lv0) >= 2 and not cfg["transp"] else []))
+                if k == "gate":
+                    events.append({"k": "gate", "h": rng.choice(lv0), "g": rng.randrange(7)})
+                elif k == "gate2":
+                    a, b = rng.sample(lv0, 2)
+                    events.append({"k": "gate2", "h": a, "h2": b})
+                else:
+                    if names and rng.random() < 0.2:
+                        name = rng.choice(names)
+                    elif rng.random() < 0.85:
+                        name = "t%d" % tcount
+                        tcount += 1
+                        names.append(name)
+                    else:
+                        name = None
+                    n = {"t": name} if name else rng.randrange(256)
+                    events.append({"k": "rot", "h": rng.choice(lv0), "axis": rng.choice("XYZ"), "n": n,
+                                   "d": rng.randrange(0, 8)})
+
+            def some_vals():
+                return {nm: rng.choice([0, 1, 255, 16, rng.randrange(256)]) for nm in names}
+
+            ev = {"k": "compile", "vals": some_vals(), "more": [some_vals() for _ in range(rng.randint(0, 3))],
+                  "copy": rng.choice(["copy", "deepcopy"])}
+            if not ev["more"] and rng.random() < 0.4:
+                ev["copy"] = "self"
+            if names and rng.random() < 0.5:
+                keep = rng.sample(names, rng.randint(0, len(names) - 1))
+                ev["partial"] = {nm: rng.randrange(256) for nm in keep}
+                ev["partial_at"] = rng.randrange(1 + len(ev["more"]))
+            events.append(ev)
+            events.extend({"k": "commit"} for _ in range(1 + len(ev["more"])))
+            continue
         pre = rng.random() < 0.65 or outstanding > 0
         vals = {} if pre else None
         regs_used = 0
